@@ -30,6 +30,8 @@ func main() {
 		cachediff(w, *seed, *tier, stats)
 	case "lin":
 		lindiff(w, *seed, *tier, stats)
+	case "rest":
+		restdiff(w, *seed, *tier, stats)
 	default:
 		fmt.Fprintln(os.Stderr, "unknown engine")
 		os.Exit(2)
